@@ -41,16 +41,28 @@ def run(ctx, rep):
     sites = paniclib.panic_sites(f, local)
     led = json.load(open(os.path.join(engine.VERIF, 'sa', 'rules', 'c03_ledger.json')))
     allowed = {tuple(e['key']): e for e in led['sites']}
+    # totals per (file, kind, detail): a site that moved into another function of the same file is the same site
+    budget = {}
+    for e in led['sites']:
+        k = (e.get('file'), e['key'][1], e['key'][2])
+        budget[k] = budget.get(k, 0) + e['count']
+    used = {}
+    for key, locs in sites.items():
+        k = (locs[0].split(':')[0], key[1], key[2])
+        used[k] = used.get(k, 0) + len(locs)
     n = 0
     for key, locs in sorted(sites.items()):
         n += len(locs)
         e = allowed.get(key)
         inst = '%s:%s:%s' % key
-        if e is None:
+        fk = (locs[0].split(':')[0], key[1], key[2])
+        within_file_budget = used.get(fk, 0) <= budget.get(fk, 0)
+        if e is None and not within_file_budget:
             rep.ob('P-inventory', inst, False,
-                   'new panic-capable site (%s %s in %s) that no rule here proves infallible and that is not in the confirmed ledger'
-                   % (key[1], key[2], key[0]), loc=locs[0], reason='inventory')
-        elif len(locs) > e['count']:
+                   'new panic-capable site (%s %s in %s) that no rule here proves infallible and that is not in the confirmed ledger '
+                   '(%d such sites in %s, the ledger confirms %d)' % (key[1], key[2], key[0], used.get(fk, 0), fk[0], budget.get(fk, 0)),
+                   loc=locs[0], reason='inventory')
+        elif e is not None and len(locs) > e['count'] and not within_file_budget:
             rep.ob('P-inventory', inst, False, '%d sites of %s %s in %s, the ledger confirms %d' % (len(locs), key[1], key[2], key[0], e['count']),
                    loc=locs[-1], reason='inventory')
         else:
